@@ -21,12 +21,12 @@ ASSUMPTIONS = c03_sv.ASSUMPTIONS + [
 
 def plan(tier, seed):
   q = tier == "quick"
-  return [{"hashseed": (seed * 61 + i) % 1061, "part": i, "nparts": 16, "designs": 26 if q else 400, "probes": 3 if q else 20} for i in range(16)]
+  return [{"hashseed": (seed * 61 + i) % 1061, "part": i, "nparts": 16, "designs": 26 if q else 400, "probes": 3 if q else 20, "params": 6 if q else 60} for i in range(16)]
 
 
 def thresholds(tier):
   t = {"programs": 220, "cycles_cosimulated": 5000, "driver_sets_analysed": 3000, "corpus_cases_cosimulated": 50,
-       "stdlib_components_cosimulated": 60, "generated_designs_cosimulated": 150, "svsim_lrm_examples_ok": 22,
+       "stdlib_components_cosimulated": 60, "generated_designs_cosimulated": 150, "param_designs_cosimulated": 60, "svsim_lrm_examples_ok": 22,
        "struct_leaf_ports_mapped": 300, "array_element_ports_mapped": 300}
   if tier == "thorough":
     t.update({"programs": 4000, "generated_designs_cosimulated": 3500, "cycles_cosimulated": 80000})
@@ -93,6 +93,8 @@ def src_hetero_component_list(src):
 def mech(kind, w, design=None):
   """known-finding predicates over the witness (emitted text facts first, design shape second)"""
   src = w.get("source", "")
+  if kind == "emitted-text-does-not-parse-or-elaborate" and re.search(r"\d+ ' d - \d+", w.get("error", "")):
+    return "negative-free-variable-emitted-as-unsigned-literal"
   if kind == "variable-with-more-than-one-driver" and w.get("all_dual_form"):
     return "yosys-struct-port-driven-by-field-gets-several-drivers"
   if kind == "read-or-output-variable-without-driver" and w.get("all_dual_form"):
@@ -161,6 +163,7 @@ def run_shard(sh):
     return
   T.corpus_stream(sh, "ys", part, nparts, mech)
   T.stdlib_stream(sh, "ys", part, nparts, mech)
+  T.param_stream(sh, "ys", sh.params.get("params", 6), mech)
   T.specgen_stream(sh, "ys", sh.params["designs"], knobs_clean, mech, "gen")
   T.specgen_stream(sh, "ys", sh.params["probes"], knobs_probe, mech, "probe-gen", count="probe_generated_designs")
   if part == 0:
